@@ -213,6 +213,7 @@ pub fn scenario_labels(case: &DispatchCase, cx: &mut Ctx) {
     cx.label_if(yard0 && yard1, "yard_terminals");
     cx.label_if(case.net.total_main_length() < 5.0 * 1609.344, "short_route");
     cx.label_if(case.net.lockout_stage.is_some(), "lockout_declared");
+    cx.label_if(case.net.lockout_crossing, "branch_crosses_the_lockout_siding");
     cx.label_if(case.trains.iter().any(|t| t.from.is_some()), "train_with_intermediate_origin");
     cx.label_if(case.trains.iter().any(|t| t.to.is_some()), "train_with_intermediate_destination");
     cx.label_if(case.trains.iter().any(|t| t.to.map(|k| case.net.stages[k].main.length < t.train.length()).unwrap_or(false)), "train_ends_on_a_stage_shorter_than_itself");
